@@ -177,17 +177,19 @@ End Calls.
 Lemma dups_in3 a b c x : In x a -> In x (b ++ c) -> In x (dups (a ++ b ++ c)).
 Proof. intros Ia Ib. apply dups_app_in; assumption. Qed.
 
-Theorem calls_sound : forall prefix body first rest orc out,
-  calls_ok prefix body first rest = true ->
+Theorem calls_sound : forall in_fn prefix body first rest orc out,
+  calls_ok in_fn prefix body first rest = true ->
   python_calls_outputs prefix body first rest orc = Some out ->
-  firmware_calls_outputs false prefix body first rest orc = Some out.
+  firmware_calls_outputs in_fn prefix body first rest orc = Some out.
 Proof.
-  intros prefix body first rest orc out F P. unfold calls_ok in F. unfold firmware_calls_outputs.
+  intros in_fn prefix body first rest orc out F P. unfold calls_ok in F. unfold firmware_calls_outputs.
   unfold tcalls in *. cbv zeta in *.
   set (rb0 := rebound_all prefix body first rest) in *. set (vol := writes_block body) in *.
   destruct (tblock [] prefix [] []) as [[[[te st] rp] fp]|] eqn:E0; [|discriminate F].
   destruct (tblock [] body (forget rb0 te) st) as [[[[teb' stb'] rb] fb]|] eqn:Eb; [|discriminate F].
-  destruct (tblock vol first (forget vol te) st) as [[[[te1 st1] rf] ff]|] eqn:E1; [|discriminate F].
+  (* the environment the calling sequence starts from: module level / the body of another function *)
+  set (te0 := if in_fn then forget vol (forget rb0 (forget vol te)) else forget vol te) in *.
+  destruct (tblock vol first te0 st) as [[[[te1 st1] rf] ff]|] eqn:E1; [|discriminate F].
   destruct (tsegs vol rest te1 st1) as [[rs fs]|] eqn:E2; [|discriminate F].
   apply flags4 in F. destruct F as (-> & -> & -> & ->).
   unfold python_calls_outputs, python_outputs in P. rewrite rblock_app in P. rewrite rblock_app.
@@ -197,11 +199,12 @@ Proof.
   destruct (rblock (calls_inline body rest) orc1 rho1) as [[[rho2 o2] orc2]|] eqn:R2; [|discriminate P].
   destruct (sim_blocks (vol := []) prefix _ _ _ _ _ _ _ _ _ _ E0 wf_nil ragrees_nil unshadowed_nil R0) as (S0 & RA0 & U0).
   assert (W0 : wf te st) by (apply (tframe_blocks (vol := []) prefix _ _ _ _ _ _ E0 wf_nil)).
-  destruct (sim_blocks (vol := vol) first _ _ _ _ _ _ _ _ _ _ E1 (wf_forget vol _ _ W0) (ragrees_forget vol _ _ _ RA0) U0 R1)
-    as (S1 & RA1 & U1).
-  assert (W1 : wf te1 st1) by (apply (tframe_blocks (vol := vol) first _ _ _ _ _ _ E1 (wf_forget vol _ _ W0))).
-  assert (V1 : vol_unknown vol te1).
-  { eapply vol_unknown_block; [exact E1|]. intros x I. apply known_forgotten. exact I. }
+  assert (Wt0 : wf te0 st) by (unfold te0; destruct in_fn; repeat apply wf_forget; exact W0).
+  assert (RAt0 : ragrees te0 st rho0) by (unfold te0; destruct in_fn; repeat apply ragrees_forget; exact RA0).
+  assert (V0 : vol_unknown vol te0) by (unfold te0; intros x I; destruct in_fn; apply known_forgotten; exact I).
+  destruct (sim_blocks (vol := vol) first _ _ _ _ _ _ _ _ _ _ E1 Wt0 RAt0 U0 R1) as (S1 & RA1 & U1).
+  assert (W1 : wf te1 st1) by (apply (tframe_blocks (vol := vol) first _ _ _ _ _ _ E1 Wt0)).
+  assert (V1 : vol_unknown vol te1) by (eapply vol_unknown_block; [exact E1|exact V0]).
   (* what the body folds from its def-time environment was written once, in the prefix: nothing later touches it *)
   assert (K : forall x, known x (forget rb0 te) = true ->
                         ~ In x vol /\ ~ In x (writes_block first) /\ ~ In x (seg_writes rest)).
@@ -234,7 +237,7 @@ Definition w_tuple_rebind : list stmt := tuple_assign 0 [n_pat; n_gap] [EList [E
 (* pat = [1, 0]; def grow(): pat.append(1); grow(); pat, gap = [1, 0, 1], 50; grow(); mon.write(len(pat));
    led.flash_pattern(pat): the length is read at run time (4, as Python); the flash pattern cannot be baked: rejected *)
 Lemma call_after_tuple_rebind :
-  calls_ok w_pat0 w_grow [] [w_tuple_rebind; [SObs (OLen n_pat)]] = true /\
+  calls_ok false w_pat0 w_grow [] [w_tuple_rebind; [SObs (OLen n_pat)]] = true /\
   python_calls_outputs w_pat0 w_grow [] [w_tuple_rebind; [SObs (OLen n_pat)]] [] = Some [VInt 4] /\
   firmware_calls_outputs false w_pat0 w_grow [] [w_tuple_rebind; [SObs (OLen n_pat)]] [] = Some [VInt 4] /\
   option_map (fun r => match r with (_, _, _, rs, _) => rs end) (tcalls false w_pat0 w_grow [] [w_tuple_rebind; [SObs (OLen n_pat)]]) =
@@ -251,18 +254,29 @@ Definition w_forms : list (list stmt) :=
     [SObs (OLen n_pat); SFor n_v [SAssign n_pat (EList [EInt 5; EInt 5])]];
     [SObs (OLen n_pat)] ].
 Lemma call_forms_nonvacuous :
-  calls_ok w_pat0 w_grow [] w_forms = true /\
+  calls_ok false w_pat0 w_grow [] w_forms = true /\
   python_calls_outputs w_pat0 w_grow [] w_forms [1%nat; 2%nat] = Some [VInt 5; VInt 2; VInt 3] /\
   python_calls_outputs w_pat0 w_grow [] w_forms [0%nat; 0%nat] = Some [VInt 5; VInt 6; VInt 7] /\
   firmware_calls_outputs false w_pat0 w_grow [] w_forms [0%nat; 0%nat] = Some [VInt 5; VInt 6; VInt 7].
 Proof. vm_compute. repeat split; reflexivity. Qed.
 
-(* the re-forget after EVERY assignment form is forced: the same calling sequence inside another function's body
-   (def use(): global pat; pat = [1, 0, 1]; grow(); mon.write(len(pat))) is parsed without it - the transpiler bakes
-   len(pat) = 3, Python prints 4 (finding F-C03-stale-after-call-in-function) *)
-Lemma call_in_function_refuted :
-  firmware_calls_outputs true w_pat0 w_grow [SAssign n_pat (EList [EInt 1; EInt 0; EInt 1])] [[SObs (OLen n_pat)]] [] = Some [VInt 3] /\
-  python_calls_outputs w_pat0 w_grow [SAssign n_pat (EList [EInt 1; EInt 0; EInt 1])] [[SObs (OLen n_pat)]] [] = Some [VInt 4] /\
-  firmware_calls_outputs false w_pat0 w_grow [SAssign n_pat (EList [EInt 1; EInt 0; EInt 1])] [[SObs (OLen n_pat)]] [] = Some [VInt 4] /\
-  calls_ok w_pat0 w_grow [SAssign n_pat (EList [EInt 1; EInt 0; EInt 1])] [[SObs (OLen n_pat)]] = true.
+(* the same calling sequence inside another function's body (def use(): global pat; pat = [1, 0, 1]; grow();
+   mon.write(len(pat))), the witness of the repaired finding F-C03-stale-after-call-in-function: the caller's plain
+   assignment does not make pat known again - the residual still reads the length at run time, 4 as Python prints *)
+Definition w_use_first : list stmt := [SAssign n_pat (EList [EInt 1; EInt 0; EInt 1])].
+Lemma call_in_function_repaired :
+  calls_ok true w_pat0 w_grow w_use_first [[SObs (OLen n_pat)]] = true /\
+  python_calls_outputs w_pat0 w_grow w_use_first [[SObs (OLen n_pat)]] [] = Some [VInt 4] /\
+  firmware_calls_outputs true w_pat0 w_grow w_use_first [[SObs (OLen n_pat)]] [] = Some [VInt 4] /\
+  option_map (fun r => match r with (_, _, _, rs, _) => rs end) (tcalls true w_pat0 w_grow w_use_first [[SObs (OLen n_pat)]]) =
+    Some [[SObs (OLen n_pat)]] /\
+  tcalls true w_pat0 w_grow w_use_first [[SObs (OFlash n_pat)]] = None.
+Proof. vm_compute. repeat split; reflexivity. Qed.
+
+(* every re-binding form in the body of the calling function, two paths *)
+Lemma call_in_function_forms :
+  calls_ok true w_pat0 w_grow [] w_forms = true /\
+  python_calls_outputs w_pat0 w_grow [] w_forms [1%nat; 2%nat] = Some [VInt 5; VInt 2; VInt 3] /\
+  firmware_calls_outputs true w_pat0 w_grow [] w_forms [1%nat; 2%nat] = Some [VInt 5; VInt 2; VInt 3] /\
+  firmware_calls_outputs true w_pat0 w_grow [] w_forms [0%nat; 0%nat] = Some [VInt 5; VInt 6; VInt 7].
 Proof. vm_compute. repeat split; reflexivity. Qed.
